@@ -375,7 +375,9 @@ def r4_node_typestate(ctx, rule='C15.R4'):
                 continue
             ok = bool(kill)
             if ok:
-                between = after[:kill[0]]
+                # every link store that precedes the destruction on this path counts, whether it was made through the box or through the
+                # raw pointer before the node was taken back into a box (the walk itself stores nothing)
+                between = evs[:rebox[-1] + kill[0]]
                 st_next = [e for e in between if e[0] == 'w' and e[2] == 'next']
                 st_prev = [e for e in between if e[0] == 'w' and e[2] == 'prev']
                 ok = len(st_next) >= 1 and len(st_prev) >= 1
@@ -575,6 +577,48 @@ def r5_drain_before_allocator(ctx, rule='C15.R5'):
         ctx.check(sum(1 for t in tys if 'LocalBox' in t) == 2, 'sentinels-owned', 'head and tail sentinels are owned boxes of the list', None, tys)
 
 
+_DUP_RE = re.compile(r'^std::(ptr::((mut_ptr|const_ptr|non_null)::)?(NonNull::)?(read|read_volatile|read_unaligned|copy|copy_nonoverlapping|copy_to|copy_from|'
+                     r'copy_to_nonoverlapping|copy_from_nonoverlapping|replace)|mem::transmute_copy|mem::ManuallyDrop::take)$')
+_PLAIN = re.compile(r'^(\*(mut|const) .*|[ui](8|16|32|64|128|size)|f32|f64|bool|char|\(\)|std::time::Duration|std::alloc::Layout)$')
+
+
+def r7_single_owner(ctx, rule='C15.R7'):
+    """exactly-once, the ownership half: a bitwise copy of a value that owns something (a node, a payload, anything that is not plain
+    data) makes a second owner, and both owners run the destructor.  In des-cqueue no function makes such a copy — values move
+    (`Option::take`, by-value returns) — so the rule is: every duplicating primitive in the crate copies plain data only, unless the
+    copied-from owner is given up (`mem::forget` / `ManuallyDrop::new`) on every returning path through the copy."""
+    ctx.set_rule(rule)
+    P = ctx.P
+    fns = [f for k, f in sorted(P.fns.items()) if k.startswith('des_cqueue::') or k.startswith('<des_cqueue::')]
+    if not ctx.floor('functions of des-cqueue scanned for duplicating reads', len(fns), 30):
+        return
+    n_sites = 0
+    for f in fns:
+        for s in f.calls():
+            if not _DUP_RE.match(s.name or ''):
+                continue
+            n_sites += 1
+            ty = (s.targs or ['?'])[0]
+            if s.name.endswith('::replace'):
+                continue    # ptr::replace moves the old value out and a new one in: one owner each
+            if _PLAIN.match(ty):
+                ctx.ok('%s copies plain data (%s)' % (s.name, ty), s.where())
+                continue
+            given_up = True
+            n_p = 0
+            for path, outcome, decs in fn_paths(ctx, f):
+                if outcome != 'return' or s.b not in path:
+                    continue
+                n_p += 1
+                evs = path_stream(f, path, decs)
+                if not any(e[0] == 'c' and e[1].name in LEAKS for e in evs):
+                    given_up = False
+            ctx.check(given_up and n_p >= 1, 'second-owner:%s' % f.key.split('::')[-1],
+                      'a bitwise copy (%s) of a value of type %s makes a second owner of the node/payload: both owners run the destructor '
+                      '(the payload is dropped twice) unless the source is forgotten on every path' % (s.name, ty), s.where(), {'type': ty})
+    ctx.ok('duplicating primitives in des-cqueue: %d site(s), all plain data or with the source given up' % n_sites, None)
+
+
 def r6_page_extent(ctx):
     """the allocator only hands out memory it owns: the extent registered as free for a fresh page is the extent that was requested from
     the system allocator for it, and the page is given back with the layout it was requested with"""
@@ -632,3 +676,4 @@ def run(ctx):
     r3_size_agreement(ctx)
     r4_node_typestate(ctx)
     r5_drain_before_allocator(ctx)
+    r7_single_owner(ctx)
